@@ -1,4 +1,5 @@
 import SigHook.Model.RegistryConc
+import SigHook.Model.Skel
 import SigHook.Lemmas.RegistryConcHand
 /-!
 # C04 — A pre-existing handler is chained: once per delivery, first, same arguments
@@ -196,5 +197,19 @@ theorem C04_no_call_for_default_or_ignore {env : Env} {ye : Nat} {disp : List (I
     · injection hev with hev; injection hev with h1 h2; simp at h1
     · injection hev with hev; cases hev
   | _ => simp_all
+
+
+/-- **C04.first_registration_order** — tie to the source (regenerated): inside `data`'s writer
+lock a first registration writes `race_fallback` (`store(Some(Prev::detect(..)))`) before
+`Slot::new` installs the library's handler, and publishes the slot last; nothing else is stored
+in between. This is the order of the L6 program counters `mLockF … mRunF → mSet → mRunD`. -/
+theorem C04_first_registration_order :
+    skelOf regFile "register_unchecked_impl" =
+      ["data.write", "clone", "fallback.write", "store", "Prev::detect", "Slot::new", "store"] := by decide
+
+/-- the dispatcher pins `race_fallback` before `data` and calls the chained handler before the
+actions (or alone, from the fallback) -/
+theorem C04_handler_order :
+    skelOf regFile "handler" = ["fallback.read", "data.read", "prev.execute", "action", "prev.execute"] := by decide
 
 end SigHook.RegConc
